@@ -165,7 +165,7 @@ def record(groups, rnd, style, scale=1, texts=None):
         except AssertionError:
             return None
         except Exception as e:      # noqa
-            events.append({'c': g['c'], 'first': g['first'], 'a': g['a'], 'segs': [['ERROR', type(e).__name__]], 'd': d})
+            events.append({'c': g['c'], 'first': g['first'], 'a': g['a'], 'segs': [['ERROR']], 'err': type(e).__name__, 'd': d})
             return events
         new = segs[len(prev):]
         if segs[:len(prev)] != prev:
@@ -173,10 +173,11 @@ def record(groups, rnd, style, scale=1, texts=None):
         ps = []
         for s in new:
             if isinstance(s, list):
-                ps.append(s)
+                ps.append(['ERROR'])
                 continue
             rad = g['a'][0] if pm.EFF(g['c'], g['first']) == 'A' else None
-            ps.append(pm.proj_seg(s, scale, radius=rad, rotkey=pm.rotkey if scale != 1 or True else None))
+            q = pm.proj_seg(s, scale, radius=rad, rotkey=pm.rotkey)
+            ps.append(q if pm.wellformed_seg(q) else ['ERROR'])
         a = g['a']
         if pm.EFF(g['c'], g['first']) == 'A' and not texts:
             a = [a[0], pm.rotkey(a[1]), a[2], a[3], a[4]]
@@ -248,7 +249,7 @@ def trace_validation(ck, rnd, ntraces, maxcmds):
         nsuite += 1
     ck.count('traces_random', nrand)
     ck.count('traces_from_repo_tests', nsuite)
-    clean = [[{k: v for k, v in e.items() if k != 'd'} for e in t] for t in traces]
+    clean = [[{k: v for k, v in e.items() if k not in ('d', 'err')} for e in t] for t in traces]
     acc, reach = tracecheck.validate(ck, 'PathData_Trace', 'PathData_Trace.cfg', 'PathData_TraceAt.cfg', clean)
     ck.trace_ok(len(acc))
     ck.count('trace_events', sum(len(t) for t in traces))
@@ -260,10 +261,9 @@ def trace_validation(ck, rnd, ntraces, maxcmds):
         at = reach.get(i, 0)
         ev = t[min(at, len(t) - 1)]
         groups = meta[i][1]
-        err = ev['segs'] and ev['segs'][0][0] == 'ERROR'
         exc = None
-        if err:
-            exc = {'TypeError': TypeError(), 'IndexError': IndexError(), 'ValueError': ValueError()}.get(ev['segs'][0][1], Exception(ev['segs'][0][1]))
+        if ev.get('err'):
+            exc = {'TypeError': TypeError(), 'IndexError': IndexError(), 'ValueError': ValueError()}.get(ev['err'], Exception(ev['err']))
         key = classify(groups[:at + 1], exc, False)
         ck.disagree(key=key, site='svgpathtools/path.py:_parse_path',
                     what='trace of the real parser rejected by PathData_Trace at event %d (%s): %r' % (at + 1, meta[i][0], ev['d'][-120:]),
